@@ -361,7 +361,9 @@ class Runner:
                     cid = cl[2]
                     c = h["cfgs"][cid]
                     _, script = self.script(c)
+                    us_before = (script.units_system["space"], script.units_system["time"], script.units_system["quantity"])
                     eng.setup(script)
+                    us_after = (script.units_system["space"], script.units_system["time"], script.units_system["quantity"])
                     own[obj] = (cid, h["kinds"][obj])
                     glob = own[obj]
                     rf = refs[own[obj]]
@@ -370,6 +372,8 @@ class Runner:
                     cfg = abstract_cfg(rf, eng._script.sampling_policy)
                     if m != rf.m:
                         cfg["kind"] = "marshal-mismatch"
+                    if us_before != us_after:
+                        cfg["kind"] = "caller-script-modified-by-setup"
                     d["cfg"] = cfg
                     d["cid"] = cid
                     d["checks"] = {"x0ok": rf.x0ok, "stepsok": rf.stepsok}
@@ -406,7 +410,9 @@ class Runner:
                 elif call == "is_complete":
                     d["ret"] = bool(eng.is_complete())
                 elif call == "get_output":
-                    self._output(eng, lib, cur_ref(obj), d)
+                    cid_own = own.get(obj, (None,))[0]
+                    want_units = dict({"space": "µm", "time": "s", "quantity": "molecule"}, **(h["cfgs"].get(cid_own, {}).get("units") or {})) if cid_own else None
+                    self._output(eng, lib, cur_ref(obj), d, want_units if view == "own" else None)
                     seen(obj, d)
                 elif call == "finalize":
                     eng.finalize()
@@ -416,7 +422,7 @@ class Runner:
                 d = {"call": "EXC", "obj": obj, "in": call, "exc": repr(e)[:300]}
             emit(d)
 
-    def _output(self, eng, lib, rf, d):
+    def _output(self, eng, lib, rf, d, want_units=None):
         out = eng.get_output()
         size = eng._script.system.state_size()
         ts = raw_tsample(lib)
@@ -451,6 +457,11 @@ class Runner:
         if out.nsamples() != ns:
             ok = False
             why.append("nsamples()")
+        if want_units is not None:
+            du, tu = out.data.units.sys, out.t.units.sys
+            if du["quantity"] != want_units["quantity"] or tu["time"] != want_units["time"]:
+                ok = False
+                why.append("trajectory is not in the script's units: %s / %s, script says %s" % (du["quantity"], tu["time"], want_units))
         d["recT"], d["recN"], d["dataok"] = recT, recN, ok
         if why:
             d["why"] = why[:4]
